@@ -14,7 +14,8 @@ def run(tier, seed):
     for fam, step in (("f_plain", 2 if tier == "quick" else 1), ("f_shape", 4 if tier == "quick" else 6),
                       ("f_occ", 3 if tier == "quick" else 1), ("f_affine", 1), ("f_cascade", 1)):
         ss = getattr(specgen, fam)(tier, seed)
-        specs += ss[seed % step::step]
+        keep = [x for x in ss if (x.get("tags") or {}).get("core")]
+        specs += keep + [x for x in ss[seed % step::step] if x not in keep]
     from .. import integ
     specs += [s for s in integ.integration_e1_specs() if not s["name"].endswith("test_translate_no_loops.yaml")]
     return run_e1(PROP, tier, seed, specs, work,
